@@ -155,8 +155,8 @@ class AsyncIOClient(ABC):
                 if cancelling is None or cancelling() > 0:
                     raise
                 self.logger.error("Status callback was cancelled", exc_info=True)
-            except Exception as e:
-                self.logger.error(f"Error in status callback: {e}", exc_info=True)
+            except Exception:
+                self.logger.error("Error in status callback", exc_info=True)
 
     async def connect(self):
         """Establish connection to the NMEA2000 gateway.
@@ -373,8 +373,9 @@ class AsyncIOClient(ABC):
                     if self._state == State.CLOSED or cancelling is None or cancelling() > 0:
                         raise
                     self.logger.error("Receive callback was cancelled", exc_info=True)
-                except Exception as e:
-                    self.logger.error(f"Error in receive callback: {e}", exc_info=True)
+                except Exception:
+                    # the exception itself is logged through exc_info, which copes with one whose __str__ fails
+                    self.logger.error("Error in receive callback", exc_info=True)
             self.queue.task_done()
         self.logger.info("process queue loop terminated")
 
